@@ -50,6 +50,10 @@ Proof.
   - specialize (IH i H). rewrite !count_cons. lia.
 Qed.
 
+Lemma count_upd' {A} (f : A -> bool) l i x y bx by_ :
+  nth_error l i = Some y -> f x = bx -> f y = by_ -> count f (upd l i x) + b2n by_ = count f l + b2n bx.
+Proof. intros H <- <-. now apply count_upd. Qed.
+
 Lemma count_upd_eq {A} (f : A -> bool) l i x y :
   nth_error l i = Some y -> f x = f y -> count f (upd l i x) = count f l.
 Proof. intros H E. pose proof (count_upd f l i x y H). rewrite E in *. lia. Qed.
@@ -458,4 +462,232 @@ Proof.
     assert (E1 : qowns c0 Q = (c0 =? q_ch Q)) by (unfold qowns; rewrite Hpc; reflexivity).
     assert (E2 : qowns c0 (q_set_pc Q CExit) = false) by reflexivity.
     rewrite E1, E2 in C. rewrite count_cons. cbn [b2n] in C. lia.
+Qed.
+
+(* one producer moves; queue records unchanged; the map may shrink, pool / channels may change *)
+Lemma A_pstep s s' i k pc pc' :
+  InvA s -> nth_error (st_prods s) i = Some (k, pc) ->
+  st_prods s' = upd (st_prods s) i (k, pc') -> st_qs s' = st_qs s ->
+  (forall q1, holds q1 (k, pc') = holds q1 (k, pc)) ->
+  (forall q1, creator q1 (k, pc') = creator q1 (k, pc)) ->
+  pc_ok s k pc' ->
+  (forall k0 q0, st_map s' k0 = Some q0 -> st_map s k0 = Some q0) ->
+  (forall q0 Q0, nth_error (st_qs s) q0 = Some Q0 -> active (q_pc Q0) = true -> st_map s' (q_key Q0) = Some q0) ->
+  (forall c, count (qowns c) (st_qs s) + count (Nat.eqb c) (st_pool s') + count (having c) (upd (st_prods s) i (k, pc'))
+             = b2n (c <? length (st_chans s'))) ->
+  InvA s'.
+Proof.
+  intros I Hp EP EQ Hh Hc Hok HM1 HM2 HO. constructor; rewrite ?EQ, ?EP.
+  - intros k0 q0 H. apply HM1 in H. apply (a_map s I _ _ H).
+  - intros q0 Q0 H A0. apply (HM2 q0 Q0 H A0).
+  - intros q0 Q0 H A0 C. apply HM1 in C. revert C. apply (a_gone s I q0 Q0 H A0).
+  - intros q0 Q0 H. rewrite (count_upd_eq (holds q0) _ i (k, pc') (k, pc) Hp (Hh q0)). apply (a_refs s I q0 Q0 H).
+  - intros q0 Q0 H. rewrite (count_upd_eq (creator q0) _ i (k, pc') (k, pc) Hp (Hc q0)). apply (a_creat s I q0 Q0 H).
+  - intros i0 k0 pc0 H. eapply pc_ok_mono; [|eapply (ok_upd s i k pc pc'); eauto].
+    rewrite EQ. apply mono_refl.
+  - intros c. unfold chown. rewrite ?EQ, ?EP. apply HO.
+Qed.
+
+Lemma ltb_succ_b2n c n : b2n (c <? n + 1) = b2n (c <? n) + b2n (c =? n).
+Proof. destruct (Nat.ltb_spec c (n + 1)), (Nat.ltb_spec c n), (Nat.eqb_spec c n); cbn; lia. Qed.
+
+Lemma A_create s i k c :
+  InvA s -> nth_error (st_prods s) i = Some (k, PHave c) -> st_map s k = None ->
+  InvA (set_ppc (set_map (set_qs s (st_qs s ++ [mkQ k c [] false 0%Z CNotStarted]))
+                         (map_set (st_map s) k (Some (length (st_qs s))))) i k (PStored (length (st_qs s)))).
+Proof.
+  intros I Hp Em. set (n := length (st_qs s)). set (Qn := mkQ k c [] false 0%Z CNotStarted).
+  assert (Hn : nth_error (st_qs s ++ [Qn]) n = Some Qn) by apply nth_error_snoc_new.
+  constructor; simp_st.
+  - intros k0 q0 H. unfold map_set in H. destruct (Nat.eqb_spec k0 k).
+    + inversion H; subst. exists Qn. split; [assumption|reflexivity].
+    + destruct (a_map s I _ _ H) as (Q0 & Hq0 & Hk0). exists Q0. split; [now apply nth_error_app_l|assumption].
+  - intros q0 Q0 H A0. apply nth_error_snoc in H. destruct H as [H|[-> ->]].
+    + pose proof (a_act s I q0 Q0 H A0) as M. rewrite map_set_other; [assumption|]. intros E. rewrite E in M. congruence.
+    + cbn [q_key Qn]. apply map_set_same.
+  - intros q0 Q0 H A0. apply nth_error_snoc in H. destruct H as [H|[-> ->]]; [|discriminate].
+    unfold map_set. destruct (q_key Q0 =? k).
+    + intros C. inversion C. apply nth_error_lt in H. fold n in H. lia.
+    + apply (a_gone s I q0 Q0 H A0).
+  - intros q0 Q0 H. rewrite (count_upd_eq (holds q0) _ i (k, PStored n) (k, PHave c) Hp eq_refl).
+    apply nth_error_snoc in H. destruct H as [H|[-> ->]]; [apply (a_refs s I q0 Q0 H)|].
+    cbn [active q_pc q_refs Qn]. fold n. unfold n. rewrite (holds_fresh s I). reflexivity.
+  - intros q0 Q0 H. pose proof (count_upd' (creator q0) _ i (k, PStored n) _ (q0 =? n) false Hp eq_refl eq_refl) as C.
+    apply nth_error_snoc in H. destruct H as [H|[-> ->]].
+    + rewrite <- (a_creat s I q0 Q0 H). apply nth_error_lt in H. fold n in H.
+      rewrite (proj2 (Nat.eqb_neq q0 n)) in C by lia. cbn [b2n] in C. lia.
+    + fold n in C. rewrite Nat.eqb_refl in C. pose proof (creator_fresh s I) as F. unfold n in *. cbn in *. lia.
+  - intros i0 k0 pc0 H. apply nth_upd_cases in H. destruct H as [[-> E]|[N H]].
+    + inversion E; subst. cbn. exists Qn. split; [assumption|reflexivity].
+    + eapply pc_ok_mono; [|apply (a_prod s I _ _ _ H)]. simp_st. apply mono_app.
+  - intros c0. unfold chown; simp_st. rewrite count_app.
+    pose proof (count_upd' (having c0) _ i (k, PStored n) _ false (c0 =? c) Hp eq_refl eq_refl) as C. cbn [b2n] in C.
+    pose proof (a_own s I c0) as O. unfold chown in O.
+    rewrite count_cons, count_nil. assert (E : qowns c0 Qn = (c0 =? c)) by reflexivity. rewrite E. lia.
+Qed.
+
+Lemma A_spawn s q Q i k :
+  InvA s -> nth_error (st_qs s) q = Some Q -> nth_error (st_prods s) i = Some (k, PSpawn q) ->
+  InvA (set_ppc (set_q s q (q_set_pc Q CTop)) i k (PEnq q)).
+Proof.
+  intros I Hq Hp.
+  assert (Hns : q_pc Q = CNotStarted).
+  { pose proof (a_creat s I q Q Hq) as C. pose proof (count_ge1 (creator q) _ i _ Hp) as G.
+    unfold creator in G at 1. cbn [snd] in G. rewrite Nat.eqb_refl in G. specialize (G eq_refl).
+    destruct (q_pc Q); cbn in C; try lia. reflexivity. }
+  assert (Hin : active (q_pc Q) = false -> active (q_pc (q_set_pc Q CTop)) = false) by (rewrite Hns; discriminate).
+  constructor; simp_st.
+  - intros k0 q0 H. destruct (a_map s I _ _ H) as (Q0 & Hq0 & Hk0).
+    destruct (mono_upd _ q Q (q_set_pc Q CTop) Hq eq_refl Hin q0 Q0 Hq0) as (Q0' & H0 & E & _).
+    exists Q0'. split; [assumption|congruence].
+  - intros q0 Q0 H A0. updc H; [apply (a_act s I q Q Hq); now rewrite Hns|apply (a_act s I q0 Q0 H A0)].
+  - intros q0 Q0 H A0. updc H; [discriminate|apply (a_gone s I q0 Q0 H A0)].
+  - intros q0 Q0 H. rewrite (count_upd_eq (holds q0) _ i (k, PEnq q) (k, PSpawn q) Hp eq_refl).
+    updc H; [|apply (a_refs s I q0 Q0 H)]. pose proof (a_refs s I q Q Hq) as R. rewrite Hns in R. exact R.
+  - intros q0 Q0 H. pose proof (count_upd' (creator q0) _ i (k, PEnq q) _ false (q0 =? q) Hp eq_refl eq_refl) as C.
+    cbn [b2n] in C. updc H.
+    + pose proof (a_creat s I q Q Hq) as R. rewrite Hns in R. rewrite Nat.eqb_refl in C. cbn in *. lia.
+    + rewrite <- (a_creat s I q0 Q0 H). rewrite (proj2 (Nat.eqb_neq q0 q)) in C by auto. cbn in C. lia.
+  - intros i0 k0 pc0 H. eapply pc_ok_mono; [|eapply (ok_upd s i k (PSpawn q) (PEnq q)); eauto].
+    + simp_st. apply (mono_upd _ q Q); auto.
+    + apply (a_prod s I _ _ _ Hp).
+  - intros c. unfold chown; simp_st.
+    rewrite (count_upd_eq (having c) _ i (k, PEnq q) (k, PSpawn q) Hp eq_refl).
+    rewrite (qowns_upd_same _ _ Q); auto; [apply (a_own s I c)|]. simp_q. now rewrite Hns.
+Qed.
+
+Ltac prod_frame s I Hp :=
+  apply (A_frame s);
+  [exact I | simp_st; try reflexivity | reflexivity | reflexivity | simp_st; rewrite ?upd_length; reflexivity
+  | intros x; simp_st; apply (count_upd_eq _ _ _ _ _ Hp); reflexivity
+  | intros x; simp_st; apply (count_upd_eq _ _ _ _ _ Hp); reflexivity
+  | intros x; simp_st; apply (count_upd_eq _ _ _ _ _ Hp); reflexivity
+  | simp_st; apply (ok_upd s _ _ _ _ I Hp) ].
+
+Lemma refs_nonneg_active s q Q : InvA s -> nth_error (st_qs s) q = Some Q -> (q_refs Q <? 0)%Z = false -> active (q_pc Q) = true.
+Proof.
+  intros I Hq E. pose proof (a_refs s I q Q Hq) as R. destruct (active (q_pc Q)); [reflexivity|].
+  apply Z.ltb_ge in E. lia.
+Qed.
+
+Lemma refs_neg_inactive s q Q : InvA s -> nth_error (st_qs s) q = Some Q -> (q_refs Q <? 0)%Z = true -> active (q_pc Q) = false.
+Proof.
+  intros I Hq E. pose proof (a_refs s I q Q Hq) as R. destruct (active (q_pc Q)); [|reflexivity].
+  apply Z.ltb_lt in E. lia.
+Qed.
+
+Lemma holder_active s q Q i k pc :
+  InvA s -> nth_error (st_qs s) q = Some Q -> nth_error (st_prods s) i = Some (k, pc) -> holds q (k, pc) = true ->
+  active (q_pc Q) = true.
+Proof.
+  intros I Hq Hp H. pose proof (a_refs s I q Q Hq) as R. destruct (active (q_pc Q)); [reflexivity|].
+  pose proof (count_ge1 (holds q) _ i _ Hp H). lia.
+Qed.
+
+Lemma A_step_prod cap s i g : InvA s -> InvA (step_prod cap s i g).
+Proof.
+  intros I. unfold step_prod.
+  destruct (nth_error (st_prods s) i) as [[k pc]|] eqn:Hp; [|exact I].
+  pose proof (a_prod s I i k pc Hp) as Ok.
+  destruct pc; cbn [pc_ok] in Ok.
+  - (* PStart *)
+    destruct (st_map s k) as [q|] eqn:Em; prod_frame s I Hp; [|exact Logic.I].
+    cbn. apply (a_map s I k q Em).
+  - (* PLoaded *)
+    destruct (nth_error (st_qs s) q) as [Q|] eqn:Hq; [|exact I].
+    destruct (q_refs Q <? 0)%Z eqn:Er.
+    + prod_frame s I Hp. exact Logic.I.
+    + apply (A_refs_step s q Q i k (PLoaded q) (PEnq q)); auto.
+      * apply (refs_nonneg_active s q Q I Hq Er).
+      * intros q1 N. unfold holds; cbn [snd]. now apply Nat.eqb_neq.
+      * unfold holds; cbn [snd]. rewrite Nat.eqb_refl. cbn. lia.
+  - (* PGet *)
+    destruct g as [c|].
+    + destruct (mem c (st_pool s)) eqn:Ec; [|exact I].
+      apply (A_pstep s _ i k PGet (PHave c) I Hp); simp_st; try reflexivity; auto.
+      * exact Logic.I.
+      * intros q0 Q0. apply (a_act s I).
+      * intros c0. pose proof (a_own s I c0) as O. unfold chown in O.
+        pose proof (count_remove1 c c0 _ Ec) as R.
+        pose proof (count_upd' (having c0) _ i (k, PHave c) _ (c0 =? c) false Hp eq_refl eq_refl) as C.
+        cbn [b2n] in C. lia.
+    + apply (A_pstep s _ i k PGet (PHave (length (st_chans s))) I Hp); simp_st; try reflexivity; auto.
+      * exact Logic.I.
+      * intros q0 Q0. apply (a_act s I).
+      * intros c0. pose proof (a_own s I c0) as O. unfold chown in O.
+        pose proof (count_upd' (having c0) _ i (k, PHave (length (st_chans s))) _ (c0 =? length (st_chans s)) false Hp eq_refl eq_refl) as C.
+        cbn [b2n] in C. rewrite app_length. cbn [length]. rewrite ltb_succ_b2n. lia.
+  - (* PHave *)
+    destruct (st_map s k) as [q|] eqn:Em.
+    + apply (A_pstep s _ i k (PHave c) (PLoaded2 q) I Hp); simp_st; try reflexivity; auto.
+      * cbn. apply (a_map s I k q Em).
+      * intros q0 Q0. apply (a_act s I).
+      * intros c0. pose proof (a_own s I c0) as O. unfold chown in O.
+        pose proof (count_upd' (having c0) _ i (k, PLoaded2 q) _ false (c0 =? c) Hp eq_refl eq_refl) as C.
+        cbn [b2n] in C. rewrite count_cons. lia.
+    + apply (A_create s i k c I Hp Em).
+  - (* PLoaded2 *)
+    destruct (nth_error (st_qs s) q) as [Q|] eqn:Hq; [|exact I].
+    destruct (q_refs Q <? 0)%Z eqn:Er.
+    + prod_frame s I Hp. cbn. exists Q. destruct Ok as (Q' & Hq' & Hk'). assert (Q' = Q) by congruence. subst.
+      repeat split; auto. apply (refs_neg_inactive s q Q I Hq Er).
+    + apply (A_refs_step s q Q i k (PLoaded2 q) (PEnq q)); auto.
+      * apply (refs_nonneg_active s q Q I Hq Er).
+      * intros q1 N. unfold holds; cbn [snd]. now apply Nat.eqb_neq.
+      * unfold holds; cbn [snd]. rewrite Nat.eqb_refl. cbn. lia.
+  - (* PCad *)
+    destruct Ok as (Q & Hq & Hk & Hi).
+    destruct (opt_is (st_map s k) q) eqn:Eo.
+    + apply opt_is_true in Eo.
+      apply (A_pstep s _ i k (PCad q) PGet I Hp); simp_st; try reflexivity; auto.
+      * exact Logic.I.
+      * intros k0 q0. unfold map_set. destruct (k0 =? k); [discriminate|auto].
+      * intros q0 Q0 H0 A0. pose proof (a_act s I q0 Q0 H0 A0) as M.
+        rewrite map_set_other; [assumption|]. intros E. rewrite E in M.
+        assert (q0 = q) by congruence. subst. assert (Q0 = Q) by congruence. subst. congruence.
+      * intros c0. pose proof (a_own s I c0) as O. unfold chown in O.
+        rewrite (count_upd_eq (having c0) _ i (k, PGet) (k, PCad q) Hp eq_refl). exact O.
+    + prod_frame s I Hp. exact Logic.I.
+  - (* PStored *)
+    destruct (nth_error (st_qs s) q) as [Q|] eqn:Hq; [|exact I].
+    apply (A_refs_step s q Q i k (PStored q) (PSpawn q)); auto.
+    + pose proof (a_creat s I q Q Hq) as C.
+      assert (G : 1 <= count (creator q) (st_prods s)).
+      { apply (count_ge1 _ _ i _ Hp). unfold creator; cbn [snd]. apply Nat.eqb_refl. }
+      destruct (q_pc Q); cbn in C; try lia. reflexivity.
+    + intros q1 N. unfold holds; cbn [snd]. now apply Nat.eqb_neq.
+    + unfold holds; cbn [snd]. rewrite Nat.eqb_refl. cbn. lia.
+  - (* PSpawn *)
+    destruct (nth_error (st_qs s) q) as [Q|] eqn:Hq; [|exact I].
+    apply (A_spawn s q Q i k I Hq Hp).
+  - (* PEnq *)
+    destruct (nth_error (st_qs s) q) as [Q|] eqn:Hq; [|exact I].
+    destruct (q_mode Q); [|destruct (length (chan s (q_ch Q)) <? cap)]; prod_frame s I Hp;
+      try (apply (map_upd_same qv _ _ _ _ Hq); reflexivity); exact Ok.
+  - (* PRel *)
+    destruct (nth_error (st_qs s) q) as [Q|] eqn:Hq; [|exact I].
+    apply (A_refs_step s q Q i k (PRel q) PDone); auto.
+    + apply (holder_active s q Q i k (PRel q) I Hq Hp). unfold holds; cbn [snd]. apply Nat.eqb_refl.
+    + intros q1 N. unfold holds; cbn [snd]. symmetry. now apply Nat.eqb_neq.
+    + unfold holds; cbn [snd]. rewrite Nat.eqb_refl. cbn. lia.
+    + exact Logic.I.
+  - exact I.
+Qed.
+
+Lemma A_step cap s l : InvA s -> InvA (step cap s l).
+Proof. destruct l; [apply A_step_prod|apply A_step_conv]. Qed.
+
+Lemma A_init keys : InvA (init keys).
+Proof.
+  constructor; cbn.
+  - discriminate.
+  - intros [|q] Q H; discriminate.
+  - intros [|q] Q H; discriminate.
+  - intros [|q] Q H; discriminate.
+  - intros [|q] Q H; discriminate.
+  - intros i k pc H. rewrite nth_error_map in H. destruct (nth_error keys i); cbn in H; [|discriminate].
+    inversion H. exact Logic.I.
+  - intros c. unfold chown; cbn. rewrite !count_nil. cbn.
+    apply count_zero. intros i x H. rewrite nth_error_map in H. destruct (nth_error keys i); cbn in H; [|discriminate].
+    inversion H. reflexivity.
 Qed.
